@@ -38,5 +38,5 @@ Definition wf_item (i : item) : bool :=
   | IOct a b c => is_octal a && is_octal b && is_octal c
   | IFlush => true
   | IDir d ds j => (match assoc d printf_directives with Some _ => true | None => false end) && negb (is_time_directive d)
-                   && forallb is_digit ds && (length ds <=? 19)
+                   && forallb is_digit ds && (length ds <=? 9)
   end.
